@@ -268,6 +268,8 @@ def maxF : List Float → Float
 structure NpHist where
   hist : List Nat
   edges : List Float
+  /-- the bin of every value, in order -/
+  bins : List Nat
   /-- the truncated index estimate of every value (what the correction steps start from) -/
   ests : List Nat
 
@@ -286,6 +288,6 @@ def npHistogram (xs : List Float) (n : Nat) : Except String NpHist :=
   let ests := kept.map (estIndex first denom n)
   if ests.any (fun e => decide (n < e)) then .error "index estimate out of range" else
   let bins := List.zipWith (fun e x => npBin er n e (f64ToRat x)) ests kept
-  .ok { hist := countBins bins n, edges := edges, ests := ests }
+  .ok { hist := countBins bins n, edges := edges, bins := bins, ests := ests }
 
 end Pew.Otsu
